@@ -6,7 +6,8 @@ From Coq Require Import NArith List Bool.
 From CB Require Import Gen.HostCosts Contract.HostBase Contract.HostBaseProofs Contract.HostV0 Contract.HostV0Proofs
   Contract.HostV1 Contract.HostV1Proofs Contract.HostLimitsProofs Contract.HostChargeProofs
   Contract.HostHistoryProofs Contract.HostCosts Contract.HostRun
-  Contract.HostTreeEnergy Contract.HostTreeEnergyProofs Contract.HostTreeChargeProofs Contract.HostOoeProofs.
+  Contract.HostTreeEnergy Contract.HostTreeEnergyProofs Contract.HostTreeChargeProofs Contract.HostOoeProofs
+  Contract.HostV0Actions.
 Import ListNotations.
 Local Open Scope N_scope.
 
@@ -376,3 +377,26 @@ Example charge_before_work_observables_nonvacuous :
   /\ V1log_event <> V1state_entry_write /\ V1log_event <> V1state_entry_resize.
 Proof. repeat split; try (vm_compute; reflexivity); discriminate. Qed.
 Print Assumptions charge_before_work_observables_nonvacuous.
+
+(** ** v0 action tree: combine_and / combine_or accept exactly identifiers of existing actions, and every
+    history of v0 host calls keeps the tree well formed (children strictly smaller than the node's index) *)
+Theorem v0_combine_accepts_iff_known_ids : forall X mk l r (s : st (host X)),
+  (exists s' x, out_combine mk l r s = (s', Ok x)) <->
+  (l < u32 (lenN (h_actions (hs s))) /\ r < u32 (lenN (h_actions (hs s)))).
+Proof. exact (@out_combine_ok_iff). Qed.
+Print Assumptions v0_combine_accepts_iff_known_ids.
+
+Theorem v0_actions_wellformed : forall X f args (s : st (host X)),
+  v0_actions_wf (h_actions (hs s)) -> v0_actions_wf (h_actions (hs (fst (call_v0 f args s)))).
+Proof. exact (@call_v0_actions_ok). Qed.
+Print Assumptions v0_actions_wellformed.
+
+Theorem v0_actions_wf_children_smaller : forall acts i a,
+  v0_actions_wf acts -> nth_error acts i = Some a -> child_ok (N.of_nat i) a.
+Proof. intros acts i a H Hn. exact (wf_from_nth acts 0 i a H Hn). Qed.
+Print Assumptions v0_actions_wf_children_smaller.
+
+Example v0_actions_wellformed_nonvacuous :
+  v0_actions_wf [AAccept; AOr 0 0; AAnd 1 0] /\ ~ v0_actions_wf [AAccept; AOr 0 1].
+Proof. split; [cbv; repeat split|]. intros H. cbv in H. destruct H as [_ [[_ H] _]]. discriminate H. Qed.
+Print Assumptions v0_actions_wellformed_nonvacuous.
